@@ -10,8 +10,9 @@ import (
 	"testing"
 
 	appsv1 "k8s.io/api/apps/v1"
-	apiequality "k8s.io/apimachinery/pkg/api/equality"
+	"k8s.io/apimachinery/pkg/api/resource"
 	metav1 "k8s.io/apimachinery/pkg/apis/meta/v1"
+	"k8s.io/apimachinery/pkg/conversion"
 	"k8s.io/apimachinery/pkg/types"
 	"k8s.io/apimachinery/pkg/util/sets"
 	kubefake "k8s.io/client-go/kubernetes/fake"
@@ -24,11 +25,35 @@ import (
 
 // C19 — client-side helpers are lossless.
 
+// c19Equal: semantic equality of API objects (quantities by value, times by instant, nil = empty, as
+// apiequality.Semantic) where raw JSON (managedFields[].fieldsV1) is compared as JSON, not byte by byte: a JSON
+// round trip may re-escape or re-space it ("&" becomes "\u0026") without changing what it says.
+var c19Equal = conversion.EqualitiesOrDie(
+	func(a, b resource.Quantity) bool { return a.Cmp(b) == 0 },
+	func(a, b metav1.MicroTime) bool { return a.UTC() == b.UTC() },
+	func(a, b metav1.Time) bool { return a.UTC() == b.UTC() },
+	func(a, b metav1.FieldsV1) bool { return rawJSONEqual(a.Raw, b.Raw) },
+)
+
+func rawJSONEqual(a, b []byte) bool {
+	if bytes.Equal(a, b) {
+		return true
+	}
+	var x, y interface{}
+	da, db := json.NewDecoder(bytes.NewReader(a)), json.NewDecoder(bytes.NewReader(b))
+	da.UseNumber()
+	db.UseNumber()
+	if da.Decode(&x) != nil || db.Decode(&y) != nil {
+		return false
+	}
+	return reflect.DeepEqual(x, y)
+}
+
 func semanticEqual(a, b reflect.Value) bool {
 	if !a.CanInterface() || !b.CanInterface() {
 		return true
 	}
-	return apiequality.Semantic.DeepEqual(a.Interface(), b.Interface())
+	return c19Equal.DeepEqual(a.Interface(), b.Interface())
 }
 
 // zeroUnmodelled clears the fields of the built-in type that the Advanced StatefulSet API does not model.
@@ -83,7 +108,7 @@ func runC19(rep Rep, c C19Case) {
 		if err != nil {
 			rep.Violate("convert/from-builtin-failed", "FromBuiltinStatefulSet failed: %v", err)
 		}
-		if !apiequality.Semantic.DeepEqual(x, c.Builtin) {
+		if !c19Equal.DeepEqual(x, c.Builtin) {
 			rep.Violate("convert/input-mutated", "FromBuiltinStatefulSet modified its argument at %s", explain(c.Builtin, x))
 		}
 		if as.APIVersion != "apps.pingcap.com/v1" {
@@ -102,7 +127,7 @@ func runC19(rep Rep, c C19Case) {
 		want := x.DeepCopy()
 		zeroUnmodelled(want)
 		want.APIVersion = back.APIVersion
-		if !apiequality.Semantic.DeepEqual(want, back) {
+		if !c19Equal.DeepEqual(want, back) {
 			rep.Violate("convert/builtin-roundtrip-lossy", "built-in -> Advanced -> built-in differs at %s", explain(want, back))
 		}
 		n, e := populated(reflect.ValueOf(x), 0)
@@ -125,7 +150,7 @@ func runC19(rep Rep, c C19Case) {
 		}
 		want := y.DeepCopy()
 		want.APIVersion = "apps.pingcap.com/v1"
-		if !apiequality.Semantic.DeepEqual(want, back) {
+		if !c19Equal.DeepEqual(want, back) {
 			rep.Violate("convert/advanced-roundtrip-lossy", "Advanced -> built-in -> Advanced differs at %s", explain(want, back))
 		}
 		// list conversion keeps length and order, item by item
@@ -143,7 +168,7 @@ func runC19(rep Rep, c C19Case) {
 				if bl.Items[i].APIVersion != "apps/v1" {
 					rep.Violate("convert/list-item-apiversion", "item %d has apiVersion %q", i, bl.Items[i].APIVersion)
 				}
-				if !apiequality.Semantic.DeepEqual(*wantItem, bl.Items[i]) {
+				if !c19Equal.DeepEqual(*wantItem, bl.Items[i]) {
 					rep.Violate("convert/list-item-differs", "item %d of the converted list differs from its single conversion at %s", i, explain(*wantItem, bl.Items[i]))
 				}
 			}
@@ -153,7 +178,7 @@ func runC19(rep Rep, c C19Case) {
 		asv1.SetObjectDefaults_StatefulSet(d1)
 		d2 := d1.DeepCopy()
 		asv1.SetObjectDefaults_StatefulSet(d2)
-		if !apiequality.Semantic.DeepEqual(d1, d2) {
+		if !c19Equal.DeepEqual(d1, d2) {
 			rep.Violate("default/not-idempotent", "defaulting twice differs from defaulting once at %s", explain(d1, d2))
 		}
 		j1, _ := json.Marshal(d1.Spec.Template)
@@ -187,7 +212,7 @@ func hijackRoundTrip(rep Rep, d *asv1.StatefulSet) {
 	}
 	want := in.DeepCopy()
 	zeroUnmodelled(want)
-	if !apiequality.Semantic.DeepEqual(want, created) {
+	if !c19Equal.DeepEqual(want, created) {
 		rep.Violate("hijack/create-result-differs", "object returned by Create differs from the (already defaulted) object written at %s", explain(want, created))
 	}
 	got, err := cl.Get(ctx, in.Name, metav1.GetOptions{})
@@ -197,7 +222,7 @@ func hijackRoundTrip(rep Rep, d *asv1.StatefulSet) {
 	if got.APIVersion != "apps/v1" {
 		rep.Violate("hijack/get-apiversion", "Get returned apiVersion %q", got.APIVersion)
 	}
-	if !apiequality.Semantic.DeepEqual(want, got) {
+	if !c19Equal.DeepEqual(want, got) {
 		rep.Violate("hijack/readback-differs", "object read back differs from the object written at %s", explain(want, got))
 	}
 	stored, _ := pc.AppsV1().StatefulSets(NS).Get(ctx, in.Name, metav1.GetOptions{})
@@ -402,6 +427,8 @@ func TestRegressC19Ann(t *testing.T) { regress(t, "C19Ann", runC19Ann) }
 func FuzzC19(f *testing.F) {
 	f.Add([]byte(`{"apiVersion":"apps/v1","kind":"StatefulSet","metadata":{"name":"web","labels":{},"annotations":{"delete-slots":"[1]"}},"spec":{"replicas":3,"selector":{"matchLabels":{"app":"web"}},"serviceName":"svc","template":{"metadata":{"labels":{"app":"web"}},"spec":{"containers":[{"name":"c","image":"i","resources":{"limits":{"cpu":"1000m"}},"ports":[{"containerPort":80}]}],"volumes":[{"name":"v","emptyDir":{}}]}},"volumeClaimTemplates":[{"metadata":{"name":"data"},"spec":{"resources":{"requests":{"storage":"1Gi"}}}}],"updateStrategy":{"type":"RollingUpdate","rollingUpdate":{"partition":1}}},"status":{"replicas":1,"collisionCount":0}}`))
 	f.Add([]byte(`{"metadata":{"creationTimestamp":null,"deletionTimestamp":"2020-01-01T00:00:00Z","managedFields":[{"manager":"m","time":"2020-01-01T00:00:00Z","fieldsV1":{"f:x":{}}}]},"spec":{"template":{"spec":{"containers":[]}},"selector":null},"status":{"conditions":[{"type":"x","status":"True","lastTransitionTime":null}]}}`))
+	// found by this fuzzer (thorough tier) against an earlier, byte-wise comparison of raw JSON - a false alarm of the harness
+	f.Add([]byte(`{"metAdAtA":{"mAnAgedFields":[{"fieldsV1":{"&":{}}}]}}`))
 	r := rec("C19")
 	f.Fuzz(func(t *testing.T, data []byte) {
 		var x appsv1.StatefulSet
